@@ -102,6 +102,21 @@ reg("C16", "reference-model monitor: masked distributions and policies called wi
     "Trusts a NumPy forward pass over the policy's own weights; near-tied greedy cases are skipped; squashed-Gaussian 'mode' is the image of the mean "
     "(SAC convention); masks in off-policy collection are observed but not judged (no given property covers them).")
 
+reg("C06", "history + executable model: real ReplayBuffer.add/sample driven with unique insertion ids in every field, contents and sampled rows judged by a 15-line ring model; icontract post-conditions on add/sample during eager DQN",
+    "Held on every history explored (apart from the listed known finding beyond 2^31 insertions): after every prefix of insertion histories up to 10x "
+    "capacity (capacities 1..64, scan/jit/eager, pytree observations and policy states) the buffer holds exactly the most recent min(n,C) ids with all "
+    "fields of a slot from one insertion; sample() for every batch size <= stored (small capacities run completely) returns only stored ids, never an "
+    "unwritten slot, none twice, also for vmapped per-environment buffers at mixed fill levels; long compiled histories of 2e7..3e8 adds.",
+    "Trusts the ring model and the id encoding; reachability of every stored id is a support test at p < 1e-9, uniformity is not claimed.")
+reg("C14", "reference-model monitor: real contains/sample/canonical/flatten_sample/==/hash of generated spaces (all kinds, nested) judged by a pure-NumPy membership and structure model; Gymnasium round trips",
+    "Held on every construction and candidate explored (apart from the listed float32 flatten finding): contains answers with a scalar boolean that "
+    "agrees with the model on members, boundary values, nextafter-outside values, NaN, wrong shapes, negative/too-large/non-integral indices and "
+    "foreign types; samples (with every non-empty Discrete mask for n <= 5) and canonical values are finite members; flatten_sample has flat_size "
+    "finite numbers and separates distinct samples; == holds exactly between structural copies, not across ~30 single-field mutations, agrees with "
+    "hash, and survives Gymnasium round trips in Gymnasium's key order.",
+    "Trusts the NumPy space model (cross-checked against gym.Space.contains); ambiguous representations (plain dict for Dict, list for Tuple, "
+    "int arrays for Box) are only required not to raise; subnormal bounds excluded (XLA flushes them).")
+
 
 def main():
     props = [json.loads(l) for l in (ROOT / "properties.jsonl").read_text().splitlines() if l.strip()]
